@@ -438,11 +438,10 @@ pub fn chase(
     locals: &BTreeMap<String, String>,
     key: &str,
 ) -> Result<Option<String>, Error> {
-    // The haystack is a reverse iterator over both lists in series
-    let mut haystack = globals.iter().chain(locals.iter()).rev();
-
-    // Find the needle in the haystack, recursively chasing look-ups ('$')
-    // and handling defaults ('*')
+    // The key itself is looked for among the locals first, then among the globals.
+    // Look-ups ('$') and defaults ('(...)') refer to the scope of the caller, i.e. to
+    // the globals only: a sibling parameter of the same step must never shadow
+    // the value given by the caller
     let key = key.trim();
     if key.is_empty() {
         return Err(Error::Syntax(String::from("Empty key")));
@@ -451,10 +450,23 @@ pub fn chase(
     let mut default = "";
     let mut needle = key;
     let mut chasing = false;
+    let mut hops = 0;
     let value;
 
     loop {
-        let found = haystack.find(|&x| x.0 == needle);
+        hops += 1;
+        if hops > 64 {
+            return Err(Error::Syntax(format!(
+                "Circular definition for '{key}' (at '{needle}')"
+            )));
+        }
+        let found = match chasing {
+            false => locals
+                .get(needle)
+                .map(|v| (true, v))
+                .or_else(|| globals.get(needle).map(|v| (false, v))),
+            true => globals.get(needle).map(|v| (false, v)),
+        };
         if found.is_none() {
             if !default.is_empty() {
                 return Ok(Some(String::from(default)));
@@ -466,9 +478,10 @@ pub fn chase(
             }
             return Ok(None);
         }
-        let thevalue = found.unwrap().1.trim();
+        let (is_local, thevalue) = found.unwrap();
+        let thevalue = thevalue.trim();
 
-        // If the value is a(nother) lookup, we continue the search in the same iterator,
+        // If the value is a(nother) lookup, we continue the search among the globals,
         // now using a *new search key*, as specified by the current value
         if let Some(stripped) = thevalue.strip_prefix('$') {
             let mut parts: Vec<_> = stripped
@@ -495,6 +508,10 @@ pub fn chase(
         // in case a proper value is provided.
         // cf. the test `macro_expansion_with_defaults_provided_in_parenthesis()` in `./mod.rs`
         if let Some(stripped) = thevalue.strip_prefix('(') {
+            // A default found among the globals has no outer scope to consult
+            if !is_local {
+                return Ok(Some(String::from(stripped.trim_end_matches(')'))));
+            }
             chasing = true;
             needle = key;
             default = stripped.trim_end_matches(')');
